@@ -14,7 +14,7 @@ sys.path.insert(0, HERE)
 import assemble  # noqa: E402
 import verus_run  # noqa: E402
 import kani_run  # noqa: E402
-from props import PROPS, TRUSTED_ALLOW  # noqa: E402
+from props import PROPS, TRUSTED_ALLOW, UNIT_RLIMIT  # noqa: E402
 
 REPO = os.environ.get('E57_REPO', '/repo')
 
@@ -82,7 +82,7 @@ def run_verus_unit(prop, unit, workdir, out, tier, known):
         if item not in TRUSTED_ALLOW.get(unit, set()) and item not in TRUSTED_ALLOW.get('*', set()):
             out.undecided.append('%s: unlisted assumption %s at assembled line %d' % (unit, item, ln))
         out.trusted.add('verus %s [%s]: %s' % (k, unit, name))
-    res = verus_run.run_verus(path, meta, workdir, rlimit=PROPS[prop].get('rlimit'))
+    res = verus_run.run_verus(path, meta, workdir, rlimit=UNIT_RLIMIT.get(unit))
     if res['status'] == 'undecided' and res.get('undecided') and not res.get('compile_errors'):
         # resource limit hit (typically while searching for a proof of a FAILING obligation): one retry with 4x the budget
         out.notes.append('%s: rlimit exceeded with default budget, retried with --rlimit 40' % unit)
@@ -103,7 +103,7 @@ def run_verus_unit(prop, unit, workdir, out, tier, known):
     for name, fr in res['functions'].items():
         short = name
         is_extracted = short in fmap
-        if is_extracted and fmap[short]['canary']:
+        if is_extracted and (fmap[short]['canary'] or fmap[short].get('known')):
             continue
         if is_extracted and short not in serving:
             continue
@@ -113,7 +113,7 @@ def run_verus_unit(prop, unit, workdir, out, tier, known):
         out.obligations.append({'name': '%s/%s' % (unit, short), 'backend': 'verus+z3', 'ok': bool(fr['success']),
                                 'time_ms': fr['time_ms'], 'kind': 'fn' if is_extracted else ('lemma' if fr.get('mode') == 'proof' else 'restated/model exec fn')})
     for f in meta['functions']:
-        if f['id'] in serving and not f['canary']:
+        if f['id'] in serving and not f['canary'] and not f.get('known'):
             out.functions.append({'unit': unit, 'fn': f['source_fn'], 'file': f['file'], 'line': f['line'],
                                   'sha256': f['sha256'], 'contract_clauses': f['clauses'], 'backend': 'verus'})
     for fl in res['failures']:
